@@ -37,7 +37,8 @@ META = {
                           'judged_roundtrip', 'independent_writer_texts_loaded', 'suffix_inference_checked',
                           'format_table', 'format_cxt', 'format_csv', 'format_python-literal',
                           'format_wiki-table', 'format_fimi', 'encoding_utf-16', 'encoding_latin-1',
-                          'Format.load', 'Format.loads', 'Format.dump', 'Format.dumps'],
+                          'Format.load', 'Format.loads', 'Format.dump', 'Format.dumps',
+                          'path_bare_relative', 'path_pathlike', 'path_bytes'],
     'shards': {'quick': 16, 'thorough': 16},
     'exhaustive': {'quick': 'all boolean tables with n*m <= 6 x every label alphabet',
                    'thorough': 'all boolean tables <= 3x3 x every label alphabet'},
@@ -503,8 +504,24 @@ def run_case(concepts, case, spec):
             if enc != 'utf-8' and rng.random() < .5:
                 continue
             path = os.path.join(work, f'f{rng.randrange(10**6)}{SUFFIX[fmt]}')
+            style = rng.randrange(5)
+            if style == 0:      # bare relative file name (the shard's cwd is its work directory)
+                path = f'bare{rng.randrange(10**6)}{SUFFIX[fmt]}'
+                COL.count('path_bare_relative')
+            elif style == 1:
+                import pathlib
+                path = pathlib.Path(path)
+                COL.count('path_pathlike')
+            elif style == 2:
+                path = os.fsencode(path)
+                COL.count('path_bytes')
             if call(ctx.tofile, path, fmt, enc, **dkw) is RAISED:
+                if style in (0, 1, 2):
+                    COL.violation('driver', 'tofile:' + fmt + '-raised-for-' + ['bare-relative', 'PathLike', 'bytes'][style] + '-path',
+                                  'a file', 'exception')
                 continue
+            if style == 2:
+                path = os.fsdecode(path)
             same(f'file-{enc}', fmt, call(C.fromfile, path, fmt, enc, **lkw))
             dd = call(D.fromfile, path, fmt, enc, **lkw)
             if dd is not RAISED and (list(dd.objects), list(dd.properties), [list(r) for r in dd.bools]) != _norm(triple):
@@ -513,7 +530,7 @@ def run_case(concepts, case, spec):
             if not lkw and fmt != 'csv' or (fmt == 'csv' and not dkw.get('dialect')):
                 # load() infers the format from the suffix, case-insensitively
                 p2 = os.path.join(work, f'g{rng.randrange(10**6)}' + _mixcase(SUFFIX[fmt], rng))
-                os.replace(path, p2)
+                os.replace(os.fspath(path), p2)
                 path = p2
                 COL.count('suffix_inference_checked')
                 same(f'load-{enc}', fmt, call(concepts.load, path, enc))
